@@ -24,7 +24,7 @@ Disjoint(st, h, j) ==
   IF j = 0 THEN TRUE
   ELSE LET rj == Reachable(st.H, {st.hs[j]}) IN
        /\ Reachable(st.H, {st.hs[h]}) \cap rj = {}
-       /\ Ancestors(st.H, st.hs[h], Cardinality(DOMAIN st.H)) \cap rj = {}
+       /\ \A x \in Reachable(st.H, {st.hs[h]}) : Ancestors(st.H, x, Cardinality(DOMAIN st.H)) \cap rj = {}
 
 (* ---- universes ------------------------------------------------------------------ *)
 Seg(s)     == [s |-> s, i |-> -1]
